@@ -56,6 +56,17 @@ CHECKS = {
          "frame / table cell / shape, projected from the lxml tree plus the .text readers, and validated step by step by TLC.",
     note="Trusted: TLC, the lxml projection and the character classifier (69 concrete representatives). TAB accepted kept or escaped (statement vs docstring). Bounded string length 3 (quick) / 3-5 (thorough), <= 3 re-open cycles.",
     technique="TLA+ two-layer spec, TLC string/history enumeration, replay on the real library, TLC trace validation"),
+ "C05": dict(
+    category="exploration", design_ref="DESIGN.md §4 C05",
+    text="Sinks.tla: Store(sink, s) with clauses Accepted, ReadBack, StructureUnchanged (element structure of every part equals that after "
+         "a plain string), StillParses, ReopenReadBack. TLC enumerates, per catalogued entry point (93: names, file names, hyperlinks, "
+         "font names, OLE prog-id, core properties, MIME type, chart series names / category labels / number formats incl. replace_data, "
+         "second-order placeholder-name sites), every string of length <= 2 (quick) / <= 3 (thorough) over markup, quote, ']]>', "
+         "reference, CDATA, element, blank, astral, C1 and TAB/LF/CR classes; thorough adds hypothesis strings over the XML Char "
+         "production. Each case is replayed on a fresh presentation and validated by TLC. Catalogue completeness is measured by an AST "
+         "scan of all XML-template substitution sites plus call tracing (0 uncovered).",
+    note="Per-call property: the Impl layer is trivial; the spec contributes the exhaustive string family and the frame condition. Strings bounded. The embedded xlsx is not examined (C08).",
+    technique="TLC-enumerated string family (+hypothesis) replayed into the real library, TLC trace validation with named clauses, measured sink coverage"),
  "C06": dict(
     category="model_checking", design_ref="DESIGN.md §4 C06",
     text="Same machine; the Impl layer transcribes the id allocators (max+1 / turbo cache, first-gap for groups and freeforms, slide-id "
